@@ -63,9 +63,41 @@ def _result_map(it, p, fid, fn, t, args):
     return NotImplemented
 
 
+_RANGE = {"i32": (-2**31, 2**31 - 1), "i128": (-2**127, 2**127 - 1), "u8": (0, 255), "i64": (-2**63, 2**63 - 1), "u32": (0, 2**32 - 1)}
+
+
+def _int_divrem(which):
+    """`<iN as Div>::div` / `<iN as Rem>::rem` (and the by-reference forms) on two known integers: Rust's semantics, including the two
+    panics (zero divisor; MIN / -1 and MIN % -1 overflow).  Anything not concrete stays opaque."""
+    def m(it, p, fid, fn, t, args):
+        a, b = args[0], args[1]
+        n = 0
+        while isinstance(a, absint.Ptr) and n < 4:
+            a = it.deref(p, a)
+            n += 1
+        n = 0
+        while isinstance(b, absint.Ptr) and n < 4:
+            b = it.deref(p, b)
+            n += 1
+        if not (isinstance(a, Int) and isinstance(b, Int) and a.ty == b.ty and a.ty in _RANGE):
+            return NotImplemented
+        lo, hi = _RANGE[a.ty]
+        if b.v == 0:
+            return ("panic", "assert:DivisionByZero" if which == "div" else "assert:RemainderByZero")
+        if a.v == lo and b.v == -1:
+            return ("panic", "assert:Overflow(%s)" % ("Div" if which == "div" else "Rem"))
+        q = abs(a.v) // abs(b.v)
+        if (a.v < 0) != (b.v < 0):
+            q = -q
+        return Int(q if which == "div" else a.v - q * b.v, a.ty)
+    return m
+
+
 MODELS = {
     "core::cmp::PartialEq::eq": _float_eq,
     "core::result::Result::map": _result_map,
+    "core::ops::arith::Div::div": _int_divrem("div"),
+    "core::ops::arith::Rem::rem": _int_divrem("rem"),
 }
 
 
